@@ -465,6 +465,19 @@ func (q *Query) Emit(wantModel bool) string {
 	}
 	sb.WriteString("(check-sat)\n")
 	if wantModel {
+		// values of array elements read at constant indices
+		var sels []string
+		seenSel := map[int]bool{}
+		for _, t := range all {
+			walk(t, seenSel, func(x *Term) {
+				if x.op == OSelect && x.args[0].op == OVar && x.args[1].op == OConst && !e.bvars[x.args[0].id] {
+					sels = append(sels, "(select "+smtName(x.args[0].name)+" "+smtConst(x.args[1].k)+")")
+				}
+			})
+		}
+		if len(sels) > 0 && len(sels) < 4000 {
+			sb.WriteString("(get-value (" + strings.Join(sels, " ") + "))\n")
+		}
 		if len(vn) > 0 {
 			sb.WriteString("(get-value (")
 			for _, n := range vn {
@@ -673,6 +686,13 @@ func parseModel(out string) map[string]string {
 			}
 			name, ok := p[0].(string)
 			if !ok {
+				// (select arr idx)
+				if l3, ok3 := p[0].([]interface{}); ok3 && len(l3) == 3 {
+					if h, _ := l3[0].(string); h == "select" {
+						an, _ := l3[1].(string)
+						m[strings.Trim(an, "|")+"["+sexprInt(l3[2])+"]"] = sexprInt(p[1])
+					}
+				}
 				continue
 			}
 			m[strings.Trim(name, "|")] = sexprInt(p[1])
